@@ -31,6 +31,8 @@ theorem verdict : (classify Generated.factsC07).Sound (Holds (cfgOf Generated.fa
 #print axioms witness_value_insert_wrong_comparator
 #print axioms witness_value_mixed_types
 #print axioms shift_correct
+#print axioms value_single_type
+#print axioms holds_current_single_type
 #print axioms shift_partial
 #print axioms witness_expire_cleared_refiled
 #print axioms witness_patch_expired_partial_reindex
